@@ -137,11 +137,14 @@ def world_replay():
     hdr["D2"] = {"h": 2, "prev": "A1", "vs": "G", "nvs": "G", "pcpR": 0, "pcpPkh": "G", "pcp": {"A1": ok(1, 2)}, "data": "D2"}      # insufficient pcp
     hdr["E2"] = {"h": 2, "prev": "A1", "vs": "G", "nvs": "G", "pcpR": 0, "pcpPkh": "G", "pcp": {"A1": S([E(1), E(2), E(3, "flip")])}, "data": "E2"}  # forged pcp entry
     hdr["G2"] = {"h": 2, "prev": "A1", "vs": "G", "nvs": "G", "pcpR": 0, "pcpPkh": "G", "pcp": {"A1": ok(1, 2, 3), "nil": ok(3)}, "data": "G2"}     # double signer
+    hdr["K2"] = {"h": 2, "prev": "A1", "vs": "G", "nvs": "G", "pcpR": 0, "pcpPkh": "G", "pcp": {"A1": S([E(1), E(2), E(3), E(-1)])}, "data": "K2"}   # 1-byte key id
+    hdr["L2"] = {"h": 2, "prev": "A1", "vs": "G", "nvs": "G", "pcpR": 0, "pcpPkh": "G", "pcp": {"A1": S([E(1), E(2), E(3), E(-3)])}, "data": "L2"}   # 3-byte key id
+    hdr["M2"] = {"h": 2, "prev": "A1", "vs": "G", "nvs": "G", "pcpR": 0, "pcpPkh": "G", "pcp": {"A1": ok(1, 2, 3), "nil": ok(4)}, "data": "M2"}      # honest nil precommit the node has not seen
     hdr["H2"] = {"h": 2, "prev": "A1", "vs": "G", "nvs": "G", "pcpR": 0, "pcpPkh": "bad", "pcp": {"A1": ok(1, 2, 3)}, "data": "H2"}
     V = singles("precommit", 1, 0, ("A1",), ((1, 2, 3), (1,), (4,))) + singles("precommit", 1, 0, ("B1",), ((1, 2, 3),)) \
         + singles("precommit", 2, 0, ("A2", "C2"), ((1, 2, 3),)) + singles("prevote", 1, 0, ("A1",), ((1, 2),))
     w["votes"] = S(V)
-    w["phs"] = S([ph("A1", 0, 1), ph("B1", 0, 2), ph("A2", 0, 1), ph("C2", 0, 1), ph("D2", 0, 2), ph("E2", 0, 2), ph("G2", 0, 3), ph("H2", 0, 3),
+    w["phs"] = S([ph("A1", 0, 1), ph("B1", 0, 2), ph("A2", 0, 1), ph("C2", 0, 1), ph("D2", 0, 2), ph("E2", 0, 2), ph("G2", 0, 3), ph("H2", 0, 3), ph("K2", 0, 1), ph("L2", 0, 1), ph("M2", 0, 2),
                   ph("F1", 0, 5), ph("A1", 0, 5), ph("A1", 0, 2, sig="bad"), ph("A1", 0, 2, hashOK=False), ph("A1", 0, 0)])
     w["replays"] = S([
         replay("A1", 0, {"A1": ok(1, 2, 3)}), replay("A1", 0, {"A1": ok(1, 2)}), replay("A1", 0, {"A1": S([E(1), E(2), E(3, "otherkey")])}),
@@ -149,6 +152,7 @@ def world_replay():
         replay("F1", 0, {"F1": ok(1, 2, 3)}),                       # signed only by the foreign set
         replay("A2", 0, {"A2": ok(1, 2, 3)}), replay("C2", 0, {"C2": ok(1, 2, 3)}),
         replay("A1", 0, {"A1": ok(1, 2, 3)}, hashOK=False), replay("A1", 0, {"B1": ok(1, 2, 3)}),
+        replay("A1", 0, {"A1": S([E(1), E(2), E(3), E(-1)])}), replay("A1", 0, {"A1": S([E(1), E(2), E(3), E(0)])}),
     ])
     w.update(SM_DEFAULT)
     w["smentr"] = S([{"h": 1, "r": 0, "pub": 1}, {"h": 2, "r": 0, "pub": 1}])
@@ -179,12 +183,87 @@ def world_valsets():
     return w
 
 
-WORLDS = {"happy": world_happy, "adversarial": world_adversarial, "equivocation": world_equivocation,
+def world_consumers():
+    """C11: few inputs, state machine entrances at every position, both readers at any speed."""
+    w = base_world()
+    V = []
+    for kind in ("prevote", "precommit"):
+        V += singles(kind, 1, 0, ("A1",), ((1, 2), (3,)))
+        V += singles(kind, 1, 0, ("nil",), ((1, 2, 3),))
+        V += singles(kind, 1, 1, ("nil",), ((1,), (2, 3)))
+    V += singles("precommit", 2, 0, ("A2",), ((1, 2, 3),))
+    w["votes"] = S(V)
+    w["phs"] = S([ph("A1", 0, 1), ph("A2", 0, 1)])
+    w["replays"] = S([])
+    w["smentr"] = S([{"h": 1, "r": 0, "pub": 4}, {"h": 1, "r": 1, "pub": 4}, {"h": 1, "r": 2, "pub": 4}, {"h": 2, "r": 0, "pub": 4}])
+    w["smvotes"] = S([{"kind": "prevote", "target": "A1"}, {"kind": "precommit", "target": "A1"}, {"kind": "precommit", "target": "nil"}])
+    return w
+
+
+def world_wide():
+    """C09: every message class at every position relative to the node: heights 0..3, rounds 0..3, every
+    proof shape, proposers inside/outside the set, replays for any height/round."""
+    w = base_world()
+    hdr = w["hdr"]
+    hdr["A3"] = {"h": 3, "prev": "A2", "vs": "G", "nvs": "G", "pcpR": 0, "pcpPkh": "G", "pcp": {"A2": ok(1, 2, 3)}, "data": "A3"}
+    hdr["Z0"] = {"h": 0, "prev": "bogus", "vs": "G", "nvs": "G", "pcpR": 0, "pcpPkh": "none", "pcp": {}, "data": "Z0"}
+    hdr["N2"] = {"h": 2, "prev": "A1", "vs": "G", "nvs": "G", "pcpR": 1, "pcpPkh": "G", "pcp": {"A1": ok(1, 2, 3)}, "data": "N2"}   # commit proof of another round
+    hdr["M2"] = {"h": 2, "prev": "A1", "vs": "G", "nvs": "G", "pcpR": 0, "pcpPkh": "G", "pcp": {"A1": ok(1, 2, 3), "nil": ok(4)}, "data": "M2"}
+    hdr["K2"] = {"h": 2, "prev": "A1", "vs": "G", "nvs": "G", "pcpR": 0, "pcpPkh": "G", "pcp": {"A1": S([E(1), E(2), E(3), E(-1)])}, "data": "K2"}
+    byh = {0: "Z0", 1: "A1", 2: "A2", 3: "A3"}
+    V = []
+    for kind in ("prevote", "precommit"):
+        for h in (0, 1, 2, 3):
+            for r in (0, 1, 2, 3):
+                t = byh[h]
+                V.append(vote(kind, h, r, {t: ok(1, 2, 3)}))
+                V.append(vote(kind, h, r, {"nil": ok(2)}))
+                if r < 2:
+                    V.append(vote(kind, h, r, {t: S([E(1), E(-1)])}))
+                    V.append(vote(kind, h, r, {"X": S([E(3, "flip"), E(0), E(-3)])}))
+                    V.append(vote(kind, h, r, {t: ok(1)}, pkh="bad"))
+        V.append(vote(kind, 1, 0, {}))
+    w["votes"] = S(V)
+    P = []
+    for l in ("Z0", "A1", "B1", "A2", "N2", "M2", "K2", "A3"):
+        for r in (0, 1, 2, 3):
+            P.append(ph(l, r, 1))
+        P.append(ph(l, 0, 5))
+        P.append(ph(l, 0, 0))
+        P.append(ph(l, 0, 2, sig="bad"))
+    w["phs"] = S(P)
+    R = []
+    for l in ("Z0", "A1", "A2", "A3"):
+        for r in (0, 1, 2):
+            R.append(replay(l, r, {l: ok(1, 2, 3)}))
+        R.append(replay(l, 0, {l: ok(1, 2)}))
+        R.append(replay(l, 0, {l: S([E(1), E(2), E(-1)])}))
+        R.append(replay(l, 0, {"nil": ok(1, 2, 3)}))
+        R.append(replay(l, 0, {}))
+    w["replays"] = S(R)
+    w["smentr"] = S([{"h": h, "r": r, "pub": p} for h in (1, 2, 3) for r in (0, 1, 2) for p in (1, 0)])
+    w["smvotes"] = S([{"kind": k, "target": t} for k in ("prevote", "precommit") for t in ("A1", "A2", "nil", "X")])
+    return w
+
+
+WORLDS = {"wide": world_wide, "consumers": world_consumers, "happy": world_happy, "adversarial": world_adversarial, "equivocation": world_equivocation,
           "equivocation_heavy": lambda: world_equivocation((3, 1, 1, 2)), "replay": world_replay, "valsets": world_valsets}
 
 
-def write_world(w, rank, path):
+def to_sets(v):
+    """JSON value -> TLA+ value where every list is a set (behaviour arguments only contain sets)."""
+    if isinstance(v, dict):
+        return {k: to_sets(x) for k, x in v.items()}
+    if isinstance(v, list):
+        return S([to_sets(x) for x in v])
+    return v
+
+
+def write_world(w, rank, path, guide=None):
+    g = [{"op": s["op"], "args": to_sets(s["args"]) if s["args"] not in (None, "null") else "null", "crashAt": s.get("crashAt", 0)}
+         for s in (guide or [])]
     defs = {
+        "W_Guide": g,
         "W_Valsets": w["valsets"], "W_Genesis": w["genesis"], "W_HDR": w["hdr"], "W_Rank": rank,
         "W_VoteMsgs": w["votes"], "W_PHMsgs": w["phs"], "W_ReplayMsgs": w["replays"],
         "W_SMEntrances": w["smentr"], "W_SMVotes": w["smvotes"],
